@@ -2,13 +2,22 @@ CLAIMS["C06"] = dict(
     engine="seq",
     technique="explicit-state exploration of operation histories on the real MeterProvider / Meter / SyncMetricStorage / TemporalMetricStorage against a per-reader, "
               "per-stream reference model (bounded depth, canonical-state pruning on the storages' private maps, deterministic virtual clock)",
-    text="Sequential part of C06. For a UInt64 counter, a double counter (values multiples of 0.25, sums exact) and an Int64 up-down counter, with 0, 1 or 2 views on the "
+    text="Sequential part of C06. For a UInt64 counter, a double counter, an Int64 up-down counter and a double up-down counter (doubles are multiples of 0.25, sums exact), "
+         "with 0, 1 or 2 views on the "
          "instrument and 1..3 pull readers of mixed temporality, every history of Create(same name) (second handle) / Add(handle, value, attrs in {}, {a=1}, {a=2}) / "
-         "Collect(reader) is executed on the real SDK (the last operation of a history is a Collect). Quick = depth 5 (4 free operations + final Collect), attrs {} and {a=1}, over 6 reader "
+         "Collect(reader) is executed on the real SDK (the last operation of a history is a Collect). All four Add overloads of each instrument class are used (even steps "
+         "Add(v) / Add(v, attrs), odd steps Add(v, context) / Add(v, attrs, context)). The readers' temporality selector depends on the instrument type it is asked about "
+         "(configured temporality for the instrument's type, the opposite for any other type). Quick = depth 5 (4 free operations + final Collect), attrs {} and {a=1}, over 6 reader "
          "configurations (D, C, DD, DC, DDC, DCC); thorough = depth 5 with all three attribute sets over 8 configurations (one per multiset of temporalities + CDD), and with a reduced alphabet "
          "depth 5 over all 14 ordered reader configurations, depth 6 over the 8 and depth 7 over the 5 configurations with at most two readers "
          "(attrs {}, {a=1}; one value, up-down +1/-1). After every Collect: a delta point equals exactly what was added since that reader's previous collection (absent only when "
          "that is 0), a cumulative point equals the running total, every stream with due measurements is present, every handle counts, cumulative start = SDK start, delta start = "
-         "end of that reader's previous interval (first: SDK start), end = time of the collection (bracketed by harness clock readings). Record/collect races are covered by the "
-         "Engine-A harness, not by this check.",
+         "end of that reader's previous interval (first: SDK start), end = time of the collection (bracketed by harness clock readings). Extension parts with a reduced alphabet (one value, attrs {} and {a=1}; quick depth 4-5 on a "
+         "UInt64 counter and a double up-down counter, thorough depth 6), one feature each: a MetricFilter on the first reader (accept-partial / drop / accept per stream; the "
+         "other readers and the points the filter lets through must be exact); AddMetricReader(delta|cumulative) once in the middle of a history (the readers that were there "
+         "before must be unaffected; the late reader must receive exactly what was recorded since some moment between SDK start and its registration at which the SDK was active, "
+         "and conserve everything from then on); a second meter with an instrument of the same name (streams keyed by scope and name); Destroy(handle) with up to three "
+         "Create (the stream outlives its handles); every Add overload of every instrument class on an instrument created from a meter whose MeterProvider is gone (must return). "
+         "Record/collect races are covered by the Engine-A harness c06_conc (recorder threads against collector threads, preemption bound 2 quick / 3 thorough, one "
+         "configuration at least for each of the four SyncMetricStorage::Record* bodies: uint64 / double counter, with / without attributes), not by this check.",
     note=SEQ_NOTE)
